@@ -52,6 +52,7 @@ extern "C" int LLVMFuzzerTestOneInput(const uint8_t* data, size_t size) {
   g_cur.put(to_text(h));
   CaseResult cr = special::run_any(h, g_ps, &g_st);
   if (cr.failed) {
+    if (!g_failout.empty()) write_file(g_failout + ".orig", "# property " + g_prop + "\n# signature " + cr.first.sig + "\n# " + cr.first.msg + "\n" + to_text(h));
     History m = special::minimise_any(h, g_ps, cr.first.sig, 200);
     Fail f2 = cr.first;
     { CaseResult c2 = special::run_any(m, g_ps, nullptr); if (c2.failed) f2 = c2.first; }
